@@ -59,12 +59,166 @@ Proof.
   destruct (keep_sprev p h b); cbn [map]; rewrite IH; reflexivity.
 Qed.
 
+(* ---------------------------------------------------------------- one vote per (validator, pair) *)
+
+Lemma filter_all_true {A} (f : A -> bool) l : (forall x, In x l -> f x = true) -> filter f l = l.
+Proof.
+  induction l as [|a l IH]; intro H; [reflexivity|]. cbn [filter]. rewrite (H a (or_introl eq_refl)).
+  rewrite IH; [reflexivity|]. intros x Hx. apply H. right. exact Hx.
+Qed.
+
+(** a string the current parser accepts names every pair once: the specification's keying by (validator, pair) keeps it as is *)
+Lemma dedup_nodup ts : nodup_pairs ts = true -> dedup_pairs ts = ts.
+Proof.
+  induction ts as [|t r IH]; [reflexivity|]. cbn [nodup_pairs dedup_pairs]. intro H.
+  apply andb_true_iff in H as [H1 H2]. rewrite (IH H2). f_equal. apply filter_all_true.
+  intros u Hu. apply negb_true_iff in H1. apply negb_true_iff.
+  destruct (Nat.eqb (fst u) (fst t)) eqn:E; [|reflexivity]. exfalso.
+  assert (Hx : existsb (fun u0 => Nat.eqb (fst u0) (fst t)) r = true) by (apply existsb_exists; exists u; split; assumption).
+  rewrite Hx in H1. discriminate.
+Qed.
+
+Lemma tuples_ok_nodup ts : tuples_ok_gen true ts = true -> nodup_pairs ts = true.
+Proof. unfold tuples_ok_gen. intro H. apply andb_true_iff in H as [H _]. apply andb_true_iff in H as [_ H]. exact H. Qed.
+
+(** the Votes store: keys strictly increasing (one entry per validator), every entry names each pair once *)
+Fixpoint keys_sorted (l : list svote) : Prop :=
+  match l with
+  | [] => True
+  | a :: r => Forall (fun b => (sv_key a < sv_key b)%nat) r /\ keys_sorted r
+  end.
+Definition single_pairs (l : list svote) : Prop := Forall (fun sv => nodup_pairs (sv_tuples sv) = true) l.
+Definition well_keyed (s : mstate) : Prop := keys_sorted (ms_votes s) /\ single_pairs (ms_votes s).
+
+Lemma put_svote_keys a l : keys_sorted l -> keys_sorted (put_svote a l).
+Proof.
+  induction l as [|b l IH]; intro H; [split; constructor|]. cbn [put_svote]. destruct H as [Hb Hl].
+  destruct (Nat.ltb (sv_key a) (sv_key b)) eqn:E1.
+  - apply Nat.ltb_lt in E1. split; [|split; assumption]. constructor; [exact E1|].
+    eapply Forall_impl; [|exact Hb]. intros c Hc. simpl in Hc. lia.
+  - destruct (Nat.eqb (sv_key a) (sv_key b)) eqn:E2.
+    + apply Nat.eqb_eq in E2. split; [|exact Hl]. rewrite E2. exact Hb.
+    + apply Nat.ltb_ge in E1. apply Nat.eqb_neq in E2. split; [|apply IH; exact Hl].
+      assert (Hin : forall c, In c (put_svote a l) -> c = a \/ In c l).
+      { clear. induction l as [|d l IH]; intros c Hc; cbn [put_svote] in Hc.
+        - destruct Hc as [<-|[]]. left. reflexivity.
+        - destruct (Nat.ltb (sv_key a) (sv_key d)); [destruct Hc as [<-|Hc]; [left; reflexivity | right; exact Hc]|].
+          destruct (Nat.eqb (sv_key a) (sv_key d)).
+          + destruct Hc as [<-|Hc]; [left; reflexivity | right; right; exact Hc].
+          + destruct Hc as [<-|Hc]; [right; left; reflexivity|]. destruct (IH c Hc) as [->|H]; [left; reflexivity | right; right; exact H]. }
+      apply Forall_forall. intros c Hc. destruct (Hin c Hc) as [->|Hc']; [lia|].
+      rewrite Forall_forall in Hb. apply Hb. exact Hc'.
+Qed.
+
+Lemma put_svote_single a l : nodup_pairs (sv_tuples a) = true -> single_pairs l -> single_pairs (put_svote a l).
+Proof.
+  intros Ha. induction 1 as [|b l Hb Hl IH]; [repeat constructor; exact Ha|]. cbn [put_svote].
+  destruct (Nat.ltb (sv_key a) (sv_key b)); [repeat constructor; assumption|].
+  destruct (Nat.eqb (sv_key a) (sv_key b)); constructor; assumption.
+Qed.
+
+(** the message server with the all-pairs duplicate test keeps the store well keyed *)
+Lemma deliver_well_keyed fc p wl h s m s1 a :
+  deliver fc true p wl h s m = (s1, a) -> well_keyed s -> well_keyed s1.
+Proof.
+  intros H Hw. destruct m as [m|m|m]; cbn [deliver] in H.
+  - unfold deliver_prevote in H.
+    destruct (decode (pm_validator m)) as [v|]; [destruct (decode (pm_feeder m)) as [f|]|]; try (injection H as <- <-; exact Hw).
+    destruct (feeder_ok (ms_feeders s) v f && pm_bonded m); injection H as <- <-; exact Hw.
+  - unfold deliver_vote in H.
+    destruct (decode (vm_validator m)) as [v|]; [destruct (decode (vm_feeder m)) as [f|]|]; try (injection H as <- <-; exact Hw).
+    destruct (find_sprev v (ms_prevotes s)) as [pv|]; [|injection H as <- <-; exact Hw].
+    match type of H with (if ?c then _ else _) = _ => destruct c eqn:Ec end; injection H as <- <-; [|exact Hw].
+    apply andb_true_iff in Ec as [Ec _]. apply andb_true_iff in Ec as [Ec _]. apply andb_true_iff in Ec as [_ Ec].
+    apply tuples_ok_nodup in Ec. destruct Hw as [Hk Hs]. split; cbn [ms_votes].
+    + apply put_svote_keys. exact Hk.
+    + apply put_svote_single; [exact Ec | exact Hs].
+  - unfold deliver_delegate in H.
+    destruct (decode (dm_operator m)) as [v|]; [destruct (decode (dm_delegate m)) as [d|]|]; try (injection H as <- <-; exact Hw).
+    destruct (dm_isval m); injection H as <- <-; exact Hw.
+Qed.
+
+Lemma deliver_all_well_keyed fc p wl h : forall ms s s1 acc,
+  deliver_all fc true p wl h s ms = (s1, acc) -> well_keyed s -> well_keyed s1.
+Proof.
+  induction ms as [|m ms IH]; intros s s1 acc H Hw; [injection H as <- <-; exact Hw|].
+  cbn [deliver_all] in H. destruct (deliver fc true p wl h s m) as [s' a] eqn:E.
+  destruct (deliver_all fc true p wl h s' ms) as [s2 acc'] eqn:E2. injection H as <- <-.
+  exact (IH _ _ _ E2 (deliver_well_keyed _ _ _ _ _ _ _ _ E Hw)).
+Qed.
+
+(** ... and then the tally never sees two votes of one validator for one pair: the voters of [pair_votes] are pairwise
+    distinct, so every validator's power enters [total_power] once and [num_valid] counts distinct validators *)
+Definition avotes_sorted (vs : list avote) : Prop :=
+  (fix go (l : list avote) : Prop :=
+     match l with
+     | [] => True
+     | a :: r => Forall (fun b => (a_voter a < a_voter b)%nat) r /\ go r
+     end) vs.
+
+Lemma votes_for_app pr l1 l2 : votes_for pr (l1 ++ l2) = votes_for pr l1 ++ votes_for pr l2.
+Proof. unfold votes_for. rewrite filter_app, map_app. reflexivity. Qed.
+
+Lemma votes_of_voters perfs a pr v :
+  In v (map pv_voter (votes_for pr (votes_of perfs a))) -> v = a_voter a.
+Proof.
+  unfold votes_of, votes_for. destruct (perf_power perfs (a_voter a)) as [pw|]; [|intros []].
+  intro H. apply in_map_iff in H as [x [<- Hx]]. apply in_map_iff in Hx as [y [<- Hy]].
+  apply filter_In in Hy as [Hy _]. apply in_map_iff in Hy as [t [<- _]]. reflexivity.
+Qed.
+
+Lemma votes_of_single perfs a pr :
+  nodup_pairs (a_tuples a) = true -> (length (votes_for pr (votes_of perfs a)) <= 1)%nat.
+Proof.
+  unfold votes_of, votes_for. destruct (perf_power perfs (a_voter a)) as [pw|]; [|simpl; lia].
+  rewrite map_length. generalize (a_tuples a). induction l as [|t r IH]; [simpl; lia|].
+  cbn [nodup_pairs map filter fst]. intro H. apply andb_true_iff in H as [H1 H2].
+  destruct (Nat.eqb (fst t) pr) eqn:E; [|apply IH; exact H2].
+  cbn [length]. apply Nat.eqb_eq in E.
+  assert (Hz : filter (fun x : nat * pvote => Nat.eqb (fst x) pr)
+                 (map (fun t0 : nat * Z => (fst t0, mkPV (snd t0) (a_voter a) (if 0 <? snd t0 then pw else 0))) r) = []).
+  { apply negb_true_iff in H1. clear IH H2. induction r as [|u r IHr]; [reflexivity|].
+    cbn [existsb] in H1. apply orb_false_iff in H1 as [Hu Hr]. cbn [map filter fst].
+    rewrite E in Hu. rewrite Hu. apply IHr. exact Hr. }
+  rewrite Hz. simpl. lia.
+Qed.
+
+Lemma flat_votes_voters perfs pr : forall vs v,
+  In v (map pv_voter (votes_for pr (flat_votes perfs vs))) -> exists a, In a vs /\ a_voter a = v.
+Proof.
+  induction vs as [|a vs IH]; intros v H; [destruct H|].
+  unfold flat_votes in H. cbn [flat_map] in H. rewrite votes_for_app, map_app in H. apply in_app_or in H as [H|H].
+  - exists a. split; [left; reflexivity | symmetry; exact (votes_of_voters _ _ _ _ H)].
+  - destruct (IH v H) as [b [Hb Hv]]. exists b. split; [right; exact Hb | exact Hv].
+Qed.
+
+Lemma pair_voters_distinct perfs pr : forall vs,
+  avotes_sorted vs -> Forall (fun a => nodup_pairs (a_tuples a) = true) vs ->
+  NoDup (map pv_voter (votes_for pr (flat_votes perfs vs))).
+Proof.
+  induction vs as [|a vs IH]; intros Hs Hn; [constructor|].
+  destruct Hs as [Ha Hs]. inversion Hn as [|? ? Hna Hnr]; subst.
+  unfold flat_votes. cbn [flat_map]. rewrite votes_for_app, map_app.
+  pose proof (votes_of_single perfs a pr Hna) as Hl.
+  pose proof (votes_of_voters perfs a pr) as Hv.
+  destruct (votes_for pr (votes_of perfs a)) as [|x [|y l]]; [exact (IH Hs Hnr) | | simpl in Hl; lia].
+  cbn [map app]. constructor; [|exact (IH Hs Hnr)].
+  intro Hin. destruct (flat_votes_voters perfs pr vs _ Hin) as [b [Hb Hbv]].
+  rewrite Forall_forall in Ha. specialize (Ha b Hb). specialize (Hv (pv_voter x) (or_introl eq_refl)). lia.
+Qed.
+
+Lemma to_avote_sorted l : keys_sorted l -> avotes_sorted (map to_avote l).
+Proof.
+  induction l as [|a l IH]; intro H; [exact I|]. destruct H as [Ha Hl]. split; [|apply IH; exact Hl].
+  apply Forall_forall. intros b Hb. apply in_map_iff in Hb as [c [<- Hc]]. rewrite Forall_forall in Ha. exact (Ha c Hc).
+Qed.
+
 (* ---------------------------------------------------------------- delivery vs the specification's tracking *)
 
 (** the current message server ([fc = true]): an accepted message has a decodable validator field, the store
     stays canonical, and the store read by key is what the specification tracks from the accept flags *)
 Lemma deliver_track p wl h s m s1 a :
-  deliver true p wl h s m = (s1, a) -> canonical_store s ->
+  deliver true true p wl h s m = (s1, a) -> canonical_store s ->
   canonical_store s1 /\ ms_rates s1 = ms_rates s /\
   forall r cast pvs, cast = map to_avote (ms_votes s) -> pvs = map to_prevote (ms_prevotes s) ->
     track h cast pvs ((m, a) :: r) =
@@ -82,11 +236,13 @@ Proof.
   - unfold deliver_vote in H.
     destruct (decode (vm_validator m)) as [v|] eqn:Ev; [destruct (decode (vm_feeder m)) as [f|]|].
     + destruct (find_sprev v (ms_prevotes s)) as [pv|].
-      * match type of H with (if ?c then _ else _) = _ => destruct c end; injection H as <- <-.
-        -- split; [|split; [reflexivity|]].
+      * match type of H with (if ?c then _ else _) = _ => destruct c eqn:Ec end; injection H as <- <-.
+        -- apply andb_true_iff in Ec as [Ec _]. apply andb_true_iff in Ec as [Ec _]. apply andb_true_iff in Ec as [_ Ec].
+           apply tuples_ok_nodup in Ec.
+           split; [|split; [reflexivity|]].
            ++ unfold canonical_store. cbn [ms_votes]. apply put_svote_canonical; [reflexivity | exact Hc].
            ++ intros r cast pvs -> ->. cbn [track]. rewrite Ev. cbn [ms_votes ms_prevotes].
-              rewrite put_svote_map, del_sprev_map. reflexivity.
+              rewrite put_svote_map, del_sprev_map, (dedup_nodup _ Ec). reflexivity.
         -- split; [exact Hc|]. split; [reflexivity|]. intros r cast pvs -> ->. reflexivity.
       * injection H as <- <-. split; [exact Hc|]. split; [reflexivity|]. intros r cast pvs -> ->. reflexivity.
     + injection H as <- <-. split; [exact Hc|]. split; [reflexivity|]. intros r cast pvs -> ->. reflexivity.
@@ -100,15 +256,15 @@ Proof.
 Qed.
 
 Lemma deliver_all_track p wl h : forall ms s s1 acc,
-  deliver_all true p wl h s ms = (s1, acc) -> canonical_store s ->
+  deliver_all true true p wl h s ms = (s1, acc) -> canonical_store s ->
   canonical_store s1 /\ ms_rates s1 = ms_rates s /\ length acc = length ms /\
   track h (map to_avote (ms_votes s)) (map to_prevote (ms_prevotes s)) (combine ms acc) =
   Some (map to_avote (ms_votes s1), map to_prevote (ms_prevotes s1)).
 Proof.
   induction ms as [|m ms IH]; intros s s1 acc H Hc.
   - injection H as <- <-. split; [exact Hc|]. split; [reflexivity|]. split; reflexivity.
-  - cbn [deliver_all] in H. destruct (deliver true p wl h s m) as [s' a] eqn:E.
-    destruct (deliver_all true p wl h s' ms) as [s2 acc'] eqn:E2. injection H as <- <-.
+  - cbn [deliver_all] in H. destruct (deliver true true p wl h s m) as [s' a] eqn:E.
+    destruct (deliver_all true true p wl h s' ms) as [s2 acc'] eqn:E2. injection H as <- <-.
     destruct (deliver_track p wl h s m s' a E Hc) as [Hc' [Hr Ht]].
     destruct (IH s' s2 acc' E2 Hc') as [Hc2 [Hr2 [Hl2 Ht2]]].
     split; [exact Hc2|]. split; [congruence|]. split; [cbn [length]; congruence|].
@@ -117,11 +273,41 @@ Qed.
 
 (** the identity map "message string -> validator" is applied before anything is stored *)
 Theorem stored_voter_is_canonical p wl h ms s s1 acc :
-  deliver_all true p wl h s ms = (s1, acc) -> canonical_store s ->
+  deliver_all true true p wl h s ms = (s1, acc) -> canonical_store s ->
   canonical_store s1 /\ votes_seen (ms_votes s1) = map to_avote (ms_votes s1).
 Proof.
   intros H Hc. destruct (deliver_all_track p wl h ms s s1 acc H Hc) as [Hc1 _].
   split; [exact Hc1 | exact (votes_seen_canonical _ Hc1)].
+Qed.
+
+(** MAIN (one vote per validator and pair): whatever messages are delivered — repeated pairs adjacent, non-adjacent, three
+    times, with equal or different rates — with the all-pairs duplicate test of the parser the tally at the end of the block
+    sees at most one vote of each validator for each pair *)
+Theorem one_vote_per_validator_and_pair p wl h ms s s1 acc e rs pr :
+  deliver_all true true p wl h s ms = (s1, acc) -> canonical_store s -> well_keyed s ->
+  NoDup (map pv_voter (pair_votes (env_state e (votes_seen (ms_votes s1)) rs) pr)).
+Proof.
+  intros H Hc Hw. destruct (deliver_all_track p wl h ms s s1 acc H Hc) as [Hc1 _].
+  destruct (deliver_all_well_keyed true p wl h ms s s1 acc H Hw) as [Hk Hs].
+  rewrite (votes_seen_canonical _ Hc1). unfold pair_votes. cbn [env_state votes].
+  apply pair_voters_distinct; [apply to_avote_sorted; exact Hk|].
+  apply Forall_forall. intros a Ha. apply in_map_iff in Ha as [sv [<- Hsv]].
+  unfold single_pairs in Hs. rewrite Forall_forall in Hs. exact (Hs sv Hsv).
+Qed.
+
+(** both store invariants hold again after every block of a history *)
+Theorem mhist_step_invariants fx p e s x acc s' evs :
+  mhist_step true true fx p e s x = (acc, Some (s', evs)) -> canonical_store s -> well_keyed s ->
+  canonical_store s' /\ well_keyed s'.
+Proof.
+  unfold mhist_step. intros H Hc Hw.
+  destruct (deliver_all true true p (he_whitelist e) (mp_h x) s (mp_msgs x)) as [s1 a1] eqn:E.
+  destruct (deliver_all_track p _ _ _ _ _ _ E Hc) as [Hc1 _].
+  pose proof (deliver_all_well_keyed true p _ _ _ _ _ _ E Hw) as Hw1.
+  destruct (end_block fx p (env_state e (votes_seen (ms_votes s1)) (ms_rates s1)) (mp_h x)) as [|rs ev]; [discriminate|].
+  destruct (is_period_last (mp_h x) (p_vote_period p)); injection H as _ <- _.
+  - split; [constructor | split; [exact I | constructor]].
+  - split; [exact Hc1 | exact Hw1].
 Qed.
 
 (* ---------------------------------------------------------------- the history property at message level *)
@@ -130,12 +316,12 @@ Definition mobs_of (acc : list bool) (s : mstate) (evs : list (nat * Z)) : mobs 
   mkMObs acc false (ms_rates s) evs (map to_avote (ms_votes s)) (map to_prevote (ms_prevotes s)).
 Definition panic_mobs (acc : list bool) : mobs := mkMObs acc true [] [] [] [].
 
-Fixpoint mhist_obs (fc fx : bool) (p : params) (s : mstate) (xs : list (henv * mstep)) : list (henv * mstep * mobs) :=
+Fixpoint mhist_obs (fc dc fx : bool) (p : params) (s : mstate) (xs : list (henv * mstep)) : list (henv * mstep * mobs) :=
   match xs with
   | [] => []
-  | (e, x) :: r => match mhist_step fc fx p e s x with
+  | (e, x) :: r => match mhist_step fc dc fx p e s x with
                    | (acc, None) => [(e, x, panic_mobs acc)]
-                   | (acc, Some (s', evs)) => (e, x, mobs_of acc s' evs) :: mhist_obs fc fx p s' r
+                   | (acc, Some (s', evs)) => (e, x, mobs_of acc s' evs) :: mhist_obs fc dc fx p s' r
                    end
   end.
 
@@ -143,12 +329,12 @@ Fixpoint mhist_obs (fc fx : bool) (p : params) (s : mstate) (xs : list (henv * m
     spelling, accepted or not — and every per-block staking view, each EndBlocker outcome of the current code satisfies
     P w.r.t. exactly the votes cast BY IDENTITY through accepted messages since the last period end. *)
 Theorem mhist_holds p : forall xs, Forall (fun ex => wf_env (fst ex)) xs -> forall s, canonical_store s ->
-  P_mhist p (ms_rates s) (map to_avote (ms_votes s)) (map to_prevote (ms_prevotes s)) (mhist_obs true true p s xs).
+  P_mhist p (ms_rates s) (map to_avote (ms_votes s)) (map to_prevote (ms_prevotes s)) (mhist_obs true true true p s xs).
 Proof.
   induction xs as [|[e x] xs IH]; intros Hall s Hc; [exact I|].
   inversion Hall as [|? ? Hw Hr]; subst. simpl in Hw.
   cbn [mhist_obs]. unfold mhist_step.
-  destruct (deliver_all true p (he_whitelist e) (mp_h x) s (mp_msgs x)) as [s1 acc] eqn:E.
+  destruct (deliver_all true true p (he_whitelist e) (mp_h x) s (mp_msgs x)) as [s1 acc] eqn:E.
   destruct (deliver_all_track p _ _ _ _ _ _ E Hc) as [Hc1 [Hr1 [Hl Ht]]].
   rewrite (votes_seen_canonical _ Hc1).
   pose proof (end_block_holds p (env_state e (map to_avote (ms_votes s1)) (ms_rates s1)) (mp_h x)
@@ -196,7 +382,7 @@ Definition omsg_equiv (m1 m2 : omsg) : Prop :=
 Definition mstep_equiv (x1 x2 : henv * mstep) : Prop :=
   fst x1 = fst x2 /\ mp_h (snd x1) = mp_h (snd x2) /\ Forall2 omsg_equiv (mp_msgs (snd x1)) (mp_msgs (snd x2)).
 
-Lemma deliver_spelling p wl h s m1 m2 : omsg_equiv m1 m2 -> deliver true p wl h s m1 = deliver true p wl h s m2.
+Lemma deliver_spelling dc p wl h s m1 m2 : omsg_equiv m1 m2 -> deliver true dc p wl h s m1 = deliver true dc p wl h s m2.
 Proof.
   destruct m1 as [a|a|a], m2 as [b|b|b]; cbn [omsg_equiv]; try contradiction; unfold astr_equiv.
   - intros [Hv [Hf [Hh Hb]]]. cbn [deliver]. unfold deliver_prevote, voter_string. rewrite Hv, Hf, Hh, Hb. reflexivity.
@@ -205,30 +391,30 @@ Proof.
   - intros [Hv [Hf Hb]]. cbn [deliver]. unfold deliver_delegate. rewrite Hv, Hf, Hb. reflexivity.
 Qed.
 
-Lemma deliver_all_spelling p wl h : forall ms1 ms2, Forall2 omsg_equiv ms1 ms2 ->
-  forall s, deliver_all true p wl h s ms1 = deliver_all true p wl h s ms2.
+Lemma deliver_all_spelling dc p wl h : forall ms1 ms2, Forall2 omsg_equiv ms1 ms2 ->
+  forall s, deliver_all true dc p wl h s ms1 = deliver_all true dc p wl h s ms2.
 Proof.
   induction 1 as [|m1 m2 ms1 ms2 Hm _ IH]; intro s; [reflexivity|].
-  cbn [deliver_all]. rewrite (deliver_spelling p wl h s m1 m2 Hm).
-  destruct (deliver true p wl h s m2) as [s1 a]. rewrite IH. reflexivity.
+  cbn [deliver_all]. rewrite (deliver_spelling dc p wl h s m1 m2 Hm).
+  destruct (deliver true dc p wl h s m2) as [s1 a]. rewrite IH. reflexivity.
 Qed.
 
-Lemma mhist_step_spelling fx p e s x1 x2 :
+Lemma mhist_step_spelling dc fx p e s x1 x2 :
   mp_h x1 = mp_h x2 -> Forall2 omsg_equiv (mp_msgs x1) (mp_msgs x2) ->
-  mhist_step true fx p e s x1 = mhist_step true fx p e s x2.
+  mhist_step true dc fx p e s x1 = mhist_step true dc fx p e s x2.
 Proof.
-  intros Hh Hm. unfold mhist_step. rewrite Hh, (deliver_all_spelling p (he_whitelist e) (mp_h x2) _ _ Hm s). reflexivity.
+  intros Hh Hm. unfold mhist_step. rewrite Hh, (deliver_all_spelling dc p (he_whitelist e) (mp_h x2) _ _ Hm s). reflexivity.
 Qed.
 
 (** MAIN: which messages are accepted and which rates are published — at every block of a history — do not depend
     on how the validator / feeder / operator / delegate fields of the messages are spelled *)
-Theorem spelling_irrelevant fx p : forall xs1 xs2, Forall2 mstep_equiv xs1 xs2 ->
-  forall s, mhist_events true fx p s xs1 = mhist_events true fx p s xs2.
+Theorem spelling_irrelevant dc fx p : forall xs1 xs2, Forall2 mstep_equiv xs1 xs2 ->
+  forall s, mhist_events true dc fx p s xs1 = mhist_events true dc fx p s xs2.
 Proof.
   induction 1 as [|[e1 x1] [e2 x2] xs1 xs2 [He [Hh Hm]] _ IH]; intro s; [reflexivity|].
   cbn [fst snd] in He, Hh, Hm. subst e2. cbn [mhist_events].
-  rewrite (mhist_step_spelling fx p e1 s x1 x2 Hh Hm).
-  destruct (mhist_step true fx p e1 s x2) as [acc [[s' evs]|]]; [|reflexivity]. rewrite IH. reflexivity.
+  rewrite (mhist_step_spelling dc fx p e1 s x1 x2 Hh Hm).
+  destruct (mhist_step true dc fx p e1 s x2) as [acc [[s' evs]|]]; [|reflexivity]. rewrite IH. reflexivity.
 Qed.
 
 (* ---------------------------------------------------------------- witnesses *)
@@ -262,15 +448,15 @@ Qed.
 Example ex_spelling_nonvacuous :
   Forall2 mstep_equiv (ex_hist SpUpper) (ex_hist SpLower) /\
   ex_hist SpUpper <> ex_hist SpLower /\
-  mhist_events true true p10 ms0 (ex_hist SpUpper) = [(all5, []); (all5, [(0%nat, 200 * 1000000000000000000)])] /\
-  mhist_events true true p10 ms0 (ex_hist SpLower) = [(all5, []); (all5, [(0%nat, 200 * 1000000000000000000)])].
+  mhist_events true true true p10 ms0 (ex_hist SpUpper) = [(all5, []); (all5, [(0%nat, 200 * 1000000000000000000)])] /\
+  mhist_events true true true p10 ms0 (ex_hist SpLower) = [(all5, []); (all5, [(0%nat, 200 * 1000000000000000000)])].
 Proof.
   split; [exact ex_hist_equiv|]. split; [intro H; vm_compute in H; discriminate|]. split; vm_compute; reflexivity.
 Qed.
 
 Example ex_mhist_nonvacuous :
   canonical_store ms0 /\ Forall (fun ex => wf_env (fst ex)) (ex_hist SpUpper) /\
-  map (fun o => mo_events (snd o)) (mhist_obs true true p10 ms0 (ex_hist SpUpper)) = [[]; [(0%nat, 200 * 1000000000000000000)]].
+  map (fun o => mo_events (snd o)) (mhist_obs true true true p10 ms0 (ex_hist SpUpper)) = [[]; [(0%nat, 200 * 1000000000000000000)]].
 Proof.
   split; [constructor|]. split; [repeat constructor; exact e10_wf | vm_compute; reflexivity].
 Qed.
@@ -279,21 +465,21 @@ Qed.
     and stored but never found by the tally — 100 is published, which is not a weighted median of the five votes,
     and the outcome depends on the spelling *)
 Lemma raw_events sp :
-  mhist_events false true p10 ms0 (ex_hist sp) =
+  mhist_events false true true p10 ms0 (ex_hist sp) =
   [(all5, []); (all5, [(0%nat, match sp with SpLower => 200 | _ => 100 end * 1000000000000000000)])] \/ sp = SpBad.
 Proof. destruct sp; [left | left | right]; vm_compute; reflexivity. Qed.
 
 Theorem raw_voter_string_refuted :
   exists p s xs1 xs2,
     canonical_store s /\ Forall (fun ex => wf_env (fst ex)) xs1 /\ Forall2 mstep_equiv xs1 xs2 /\
-    mhist_events false true p s xs1 <> mhist_events false true p s xs2 /\
-    ~ P_mhist p (ms_rates s) (map to_avote (ms_votes s)) (map to_prevote (ms_prevotes s)) (mhist_obs false true p s xs1).
+    mhist_events false true true p s xs1 <> mhist_events false true true p s xs2 /\
+    ~ P_mhist p (ms_rates s) (map to_avote (ms_votes s)) (map to_prevote (ms_prevotes s)) (mhist_obs false true true p s xs1).
 Proof.
   exists p10, ms0, (ex_hist SpUpper), (ex_hist SpLower).
   split; [constructor|]. split; [repeat constructor; exact e10_wf|]. split; [exact ex_hist_equiv|].
   split; [intro H; vm_compute in H; discriminate|].
   intro HP.
-  assert (E : mhist_obs false true p10 ms0 (ex_hist SpUpper) =
+  assert (E : mhist_obs false true true p10 ms0 (ex_hist SpUpper) =
               [(e10, mkMStep (map (ex_prevote SpUpper) [0; 1; 2; 3; 4]%nat) 1,
                 mkMObs all5 false [] [] []
                        [(0%nat, 1); (1%nat, 1); (2%nat, 1); (3%nat, 1); (4%nat, 1)]);
@@ -318,6 +504,73 @@ Proof.
   rewrite T2 in Ht. injection Ht as <- <-. clear T2.
   unfold P in HPP. cbn [mp_h] in HPP. change (is_period_last 2 (p_vote_period p10)) with true in HPP. cbv iota in HPP.
   assert (D : domain p10 (env_state e10 (map (fun i => mkAVote i [(0%nat, ex_rate i)]) [0; 1; 2; 3; 4]%nat) []) 2 = true)
+    by (vm_compute; reflexivity).
+  specialize (HPP D). destruct HPP as [rs [evs [Eo [_ [H2 _]]]]].
+  unfold mo_outcome in Eo. cbn [mo_panic mo_rates mo_events] in Eo. injection Eo as <- <-.
+  destruct (H2 0%nat _ (or_introl eq_refl)) as [Hm _].
+  apply is_median_b_iff in Hm. vm_compute in Hm. discriminate.
+Qed.
+
+(** a parser that compares each pair only with the PRECEDING one ([dc = false]): validators 0-3 of power 10 vote 100, 200,
+    300, 400 on pair 0; validator 4 sends ONE vote naming pair 0 twice at rate 1 with pair 1 in between.  The message is
+    accepted, the tally counts validator 4 twice (power 60 instead of 50, six voters instead of five) and publishes 100; the
+    weighted median of the five validators' votes is 200.  The current parser refuses the message and 200 is published. *)
+Definition e10b : henv :=
+  mkHEnv [mkVal 0 true 10; mkVal 1 true 10; mkVal 2 true 10; mkVal 3 true 10; mkVal 4 true 10] 100 50000000 1000000 [0%nat; 1%nat].
+Definition rp_tuples (i : nat) : list (nat * Z) :=
+  match i with
+  | 4%nat => [(0%nat, 1 * 1000000000000000000); (1%nat, 5 * 1000000000000000000); (0%nat, 1 * 1000000000000000000)]
+  | _ => [(0%nat, Z.of_nat (S i) * 100 * 1000000000000000000)]
+  end.
+Definition rp_prevote (i : nat) : omsg := MPrevote (mkPMsg (canon i) (canon i) (mkHash 1 i (canon i)) true).
+Definition rp_vote (i : nat) : omsg := MVote (mkVMsg (canon i) (canon i) 1 i (rp_tuples i) true).
+Definition rp_hist : list (henv * mstep) :=
+  [(e10b, mkMStep [rp_prevote 0; rp_prevote 1; rp_prevote 2; rp_prevote 3; rp_prevote 4] 1);
+   (e10b, mkMStep [rp_vote 0; rp_vote 1; rp_vote 2; rp_vote 3; rp_vote 4] 2)].
+
+Lemma e10b_wf : wf_env e10b.
+Proof. intros v Hv. repeat (destruct Hv as [<-|Hv]; [simpl; lia|]). destruct Hv. Qed.
+
+Example ex_repeated_pair_refused_nonvacuous :
+  mhist_events true true true p10 ms0 rp_hist =
+  [(all5, []); ([true; true; true; true; false], [(0%nat, 200 * 1000000000000000000)])].
+Proof. vm_compute. reflexivity. Qed.
+
+Theorem adjacent_only_duplicate_check_refuted :
+  exists p s xs,
+    canonical_store s /\ well_keyed s /\ Forall (fun ex => wf_env (fst ex)) xs /\
+    mhist_events true false true p s xs <> mhist_events true true true p s xs /\
+    ~ P_mhist p (ms_rates s) (map to_avote (ms_votes s)) (map to_prevote (ms_prevotes s)) (mhist_obs true false true p s xs).
+Proof.
+  exists p10, ms0, rp_hist.
+  split; [constructor|]. split; [split; [exact I | constructor]|]. split; [repeat constructor; exact e10b_wf|].
+  split; [intro H; vm_compute in H; discriminate|].
+  intro HP.
+  assert (E : mhist_obs true false true p10 ms0 rp_hist =
+              [(e10b, mkMStep [rp_prevote 0; rp_prevote 1; rp_prevote 2; rp_prevote 3; rp_prevote 4] 1,
+                mkMObs all5 false [] [] []
+                       [(0%nat, 1); (1%nat, 1); (2%nat, 1); (3%nat, 1); (4%nat, 1)]);
+               (e10b, mkMStep [rp_vote 0; rp_vote 1; rp_vote 2; rp_vote 3; rp_vote 4] 2,
+                mkMObs all5 false [mkRate 0 (100 * 1000000000000000000) 2] [(0%nat, 100 * 1000000000000000000)] [] [])])
+    by (vm_compute; reflexivity).
+  rewrite E in HP. clear E. cbn [P_mhist ms_rates ms_votes ms_prevotes ms0 map] in HP.
+  destruct HP as [_ HP]. specialize (HP eq_refl).
+  cbn [mp_h mp_msgs mo_acc mo_rates] in HP.
+  assert (T1 : track 1 [] [] (combine [rp_prevote 0; rp_prevote 1; rp_prevote 2; rp_prevote 3; rp_prevote 4] all5) =
+               Some ([], [(0%nat, 1); (1%nat, 1); (2%nat, 1); (3%nat, 1); (4%nat, 1)])) by (vm_compute; reflexivity).
+  rewrite T1 in HP. clear T1.
+  change (is_period_last 1 (p_vote_period p10)) with true in HP. cbv iota in HP.
+  assert (F1 : filter (keep_prevote p10 1) [(0%nat, 1); (1%nat, 1); (2%nat, 1); (3%nat, 1); (4%nat, 1)] =
+               [(0%nat, 1); (1%nat, 1); (2%nat, 1); (3%nat, 1); (4%nat, 1)]) by (vm_compute; reflexivity).
+  rewrite F1 in HP. clear F1.
+  destruct HP as [[_ [cast' [pvs' [Ht [HPP _]]]]] _].
+  cbn [mp_h mp_msgs mo_acc] in Ht.
+  assert (T2 : track 2 [] [(0%nat, 1); (1%nat, 1); (2%nat, 1); (3%nat, 1); (4%nat, 1)]
+                     (combine [rp_vote 0; rp_vote 1; rp_vote 2; rp_vote 3; rp_vote 4] all5) =
+               Some (map (fun i => mkAVote i (dedup_pairs (rp_tuples i))) [0; 1; 2; 3; 4]%nat, [])) by (vm_compute; reflexivity).
+  rewrite T2 in Ht. injection Ht as <- <-. clear T2.
+  unfold P in HPP. cbn [mp_h] in HPP. change (is_period_last 2 (p_vote_period p10)) with true in HPP. cbv iota in HPP.
+  assert (D : domain p10 (env_state e10b (map (fun i => mkAVote i (dedup_pairs (rp_tuples i))) [0; 1; 2; 3; 4]%nat) []) 2 = true)
     by (vm_compute; reflexivity).
   specialize (HPP D). destruct HPP as [rs [evs [Eo [_ [H2 _]]]]].
   unfold mo_outcome in Eo. cbn [mo_panic mo_rates mo_events] in Eo. injection Eo as <- <-.
